@@ -353,6 +353,9 @@ pub struct C07State {
     pub finals: Vec<Vec<u8>>,
     /// what each session delivered: session -> index -> value
     pub delivered: HashMap<usize, BTreeMap<u32, Vec<u8>>>,
+    /// stored tip number when the faults stopped
+    pub tip_at_quiet: Option<u64>,
+    pub honest_vector_peer_banned: bool,
 }
 #[derive(Default)]
 pub struct C11State {
@@ -756,6 +759,10 @@ pub fn c07_check(ck: &mut Checker, sim: &mut Sim) {
         Some(c) => c,
         None => return,
     };
+    if ck.c07.tip_at_quiet.is_none() && sim.now >= sim.plan.quiet_from {
+        let (_, tip) = c.storage.get_last_state();
+        ck.c07.tip_at_quiet = Some(tip.raw().number().unpack());
+    }
     let max = c.storage.get_max_check_point_index();
     let values: Vec<Vec<u8>> = c
         .storage
@@ -855,8 +862,90 @@ pub fn c07_check(ck: &mut Checker, sim: &mut Sim) {
         sim.violate("C07", clause, detail);
     }
 }
-pub fn c07_on_ban(_ck: &mut Checker, _sim: &mut Sim, _s: usize, _r: &str) {}
-pub fn c07_at_end(_ck: &mut Checker, _sim: &mut Sim) {}
+fn c07_deviating_in_plan(sim: &Sim) -> usize {
+    sim.plan.peers.iter().filter(|p| p.lie_salt != 0 || !p.mutations.is_empty()).count()
+}
+
+/// With fewer deviating peers than the quorum nothing wrong can become final, so a peer that
+/// reports the true check points never contradicts a final value and must not be banned.
+pub fn c07_on_ban(ck: &mut Checker, sim: &mut Sim, s: usize, r: &str) {
+    if !ck.flag("checkpoints") {
+        return;
+    }
+    let quorum = ((sim.plan.knobs.max_outbound + 1) / 2) as usize;
+    if c07_deviating_in_plan(sim) >= quorum {
+        return;
+    }
+    if let Some(p) = sim.sessions.get(&s).cloned() {
+        let pp = &sim.plan.peers[p];
+        if pp.lie_salt == 0 && pp.mutations.is_empty() {
+            ck.c07.honest_vector_peer_banned = true;
+            sim.violate(
+                "C07",
+                "peer_reporting_the_true_check_points_banned",
+                format!("s{} (peer {}) banned: {}; {} deviating peers in the plan, quorum {}", s, p, r, c07_deviating_in_plan(sim), quorum),
+            );
+        }
+    }
+}
+
+/// "... nor block agreement among the rest": with a quorum of proven peers that report the true
+/// check points connected since the faults stopped, the final index must have reached the
+/// check point below the tip the client had proven by then.
+pub fn c07_at_end(ck: &mut Checker, sim: &mut Sim) {
+    if !ck.flag("checkpoints") || ck.c07.honest_vector_peer_banned {
+        return;
+    }
+    let c = match sim.client.as_ref() {
+        Some(c) => c,
+        None => return,
+    };
+    let quorum = ((sim.plan.knobs.max_outbound + 1) / 2) as usize;
+    if c07_deviating_in_plan(sim) >= quorum {
+        return;
+    }
+    let honest_proven = sim
+        .sessions
+        .iter()
+        .filter(|(s, p)| {
+            let pp = &sim.plan.peers[**p];
+            pp.lie_salt == 0
+                && pp.mutations.is_empty()
+                && c.peers
+                    .get_state(&PeerIndex::new(**s))
+                    .map(|st| st.get_prove_state().is_some())
+                    .unwrap_or(false)
+        })
+        .count();
+    let tip_at_quiet = match ck.c07.tip_at_quiet {
+        Some(t) => t,
+        None => return,
+    };
+    if honest_proven < quorum {
+        return;
+    }
+    let interval = sim.plan.knobs.check_point_interval.max(1);
+    let expected = (tip_at_quiet / interval).saturating_sub(1);
+    let max = c.storage.get_max_check_point_index() as u64;
+    if max < expected {
+        sim.violate(
+            "C07",
+            "agreement_among_a_quorum_of_true_reporters_blocked",
+            format!(
+                "final index {} at the end ({} ms after the faults stopped), but the client had proven block #{} (check point {}) by then and {} proven peers reporting the true check points are connected (quorum {}, {} deviating peers in the plan)",
+                max,
+                sim.now.saturating_sub(sim.plan.quiet_from),
+                tip_at_quiet,
+                tip_at_quiet / interval,
+                honest_proven,
+                quorum,
+                c07_deviating_in_plan(sim)
+            ),
+        );
+    } else {
+        sim.stat("probe.c07.final_index_reached_the_proven_tip");
+    }
+}
 
 pub fn c11_on_boot(ck: &mut Checker, _sim: &mut Sim) {
     ck.c11.names.clear();
@@ -1166,6 +1255,23 @@ pub fn c01_after(ck: &mut Checker, sim: &mut Sim, session: usize, proto: Proto, 
                 diff_note = what;
                 if only_genesis_root {
                     clause = "altered_parent_chain_root_of_the_genesis_header_accepted";
+                }
+            }
+            // the whole reorg section left out, everything else as the honest answer has it
+            if let (Some(c), Some(l)) = (tag.canonical.as_ref(), tag.layout.as_ref()) {
+                let hs = |b: &Bytes| -> Option<Vec<Vec<u8>>> {
+                    match packed::LightClientMessageReader::from_compatible_slice(b).ok()?.to_enum() {
+                        packed::LightClientMessageUnionReader::SendLastStateProof(r) => {
+                            Some(r.headers().iter().map(|h| h.as_slice().to_vec()).collect())
+                        }
+                        _ => None,
+                    }
+                };
+                if let (Some(honest), Some(got)) = (hs(c), hs(data)) {
+                    let nr = l.reorg.len();
+                    if nr > 0 && honest.len() == got.len() + nr && honest[nr..] == got[..] {
+                        clause = "reorg_section_omitted_by_a_peer_on_another_branch_accepted";
+                    }
                 }
             }
             if let Some(rest) = tag.note.strip_prefix("alter parent chain root of header ") {
